@@ -32,10 +32,14 @@ def WF (a : Alphabet) : Prop :=
 
 instance (a : Alphabet) : Decidable a.WF := by unfold WF; infer_instance
 
+/-- the set of canonical residues (indices `< K`) that code `x` stands for, read off `degen[x][·]` -/
+def degenSet (a : Alphabet) (x : Nat) : List Nat :=
+  (List.range a.K).filter fun y => (a.degen.getD x []).getD y 0 ≠ 0
+
 /-- the degeneracy tables are well-formed: `Kp` rows of `K` flags, `ndegen` = number of flags set -/
 def WFDegen (a : Alphabet) : Prop :=
   a.degen.length = a.Kp ∧ a.ndegen.length = a.Kp ∧
-  ∀ x, x < a.Kp → (a.degen.getD x []).length = a.K ∧ a.ndegen.getD x 0 = ((a.degen.getD x []).filter (· ≠ 0)).length
+  ∀ x, x < a.Kp → (a.degen.getD x []).length = a.K ∧ a.ndegen.getD x 0 = (a.degenSet x).length
 
 instance (a : Alphabet) : Decidable a.WFDegen := by unfold WFDegen; infer_instance
 
